@@ -81,6 +81,17 @@ class World(EventDispatcher):
             while entity_id in self._entities:
                 entity_id = next(self.id_generator)
 
+        # Components replaced by a later one of the same type in this
+        # very call are attached one at a time, so that they are
+        # notified (and then replaced) like any other component
+        last_of_type = {type(component): component
+                        for component in components}
+        if len(last_of_type) != len(components):
+            for component in components:
+                if last_of_type[type(component)] is not component:
+                    self.add_component(entity_id, component)
+            components = tuple(last_of_type.values())
+
         # Code duplication for performance, see add_component
         for component in components:
             component_type = type(component)
